@@ -104,6 +104,48 @@ def round_params_case(ctx, idx, rng):
     ctx.ok('model.bond-dims>=schmidt-ranks', all(b >= r for b, r in zip(H.bond_dims, ranks)), 'a bond is smaller than the Schmidt rank: the oracle or the MPO is wrong', detail)
 
 
+def ising_site_dependent_case(ctx, idx, rng):
+    """The Ising automaton of the library with SITE-DEPENDENT edges (callable active / opics): Z Z couplings present on a random subset of the bonds only,
+    expressed on the opening edge, on the closing edge, or on both; site-dependent fields. Equivalent descriptions of one Hamiltonian must give the exact
+    operator and, at every cut, a bond dimension equal to the operator Schmidt rank (nodes that cannot be completed to a path must be pruned)."""
+    L = int(rng.integers(2, 8))
+    bonds = [bool(rng.random() < 0.55) for _ in range(L - 1)]
+    J = [float(x) for x in rng.choice([-1, 1], size=L - 1) * rng.uniform(0.3, 1.5, size=L - 1)]
+    h = [float(x) for x in rng.choice([-1, 1], size=L) * rng.uniform(0.3, 1.5, size=L)]
+    g = [float(x) for x in rng.choice([-1, 1], size=L) * rng.uniform(0.3, 1.5, size=L)]
+    form = ('closing-edge', 'opening-edge', 'both-edges')[idx % 3]
+    nt0, nt1, nz = ptn.AutOpNode(0, [], [], 0), ptn.AutOpNode(1, [], [], 0), ptn.AutOpNode(2, [], [], 0)
+    au = ptn.AutOp([nt0, nt1, nz], [], [0, 1])
+    au.add_connect_edge(ptn.AutOpEdge(0, [0, 0], [(0, 1.)]))
+    au.add_connect_edge(ptn.AutOpEdge(1, [1, 1], [(0, 1.)]))
+    open_on = (lambda i: i < L - 1 and bonds[i]) if form in ('opening-edge', 'both-edges') else True
+    close_on = (lambda i: i >= 1 and bonds[i - 1]) if form in ('closing-edge', 'both-edges') else True
+    au.add_connect_edge(ptn.AutOpEdge(2, [0, 2], (lambda i: [(1, J[i] if i < L - 1 else 0.0)]), open_on))
+    au.add_connect_edge(ptn.AutOpEdge(3, [2, 1], [(1, 1.)], close_on))
+    au.add_connect_edge(ptn.AutOpEdge(4, [0, 1], (lambda i: [(1, h[i])])))
+    au.add_connect_edge(ptn.AutOpEdge(5, [0, 1], (lambda i: [(2, g[i])])))
+    Z = np.diag([1., -1.]); X = np.array([[0., 1.], [1., 0.]]); I2 = np.identity(2)
+    opmap = {0: I2, 1: Z, 2: X}
+    ctx.case(('ising-site-dependent', f'L{L}', form, f'bonds{sum(bonds)}of{L - 1}'), sample={'L': L, 'bonds': bonds, 'form': form})
+    detail = {'L': L, 'bonds': bonds, 'J': J, 'h': h, 'g': g, 'form': form}
+    graph = ptn.OpGraph.from_automaton(au, L)
+    op = ptn.MPO.from_opgraph([0, 0], graph, opmap)
+
+    def site(o, i):
+        out = np.ones((1, 1))
+        for k in range(L):
+            out = np.kron(out, o if k == i else I2)
+        return out
+    M = sum(h[i] * site(Z, i) + g[i] * site(X, i) for i in range(L))
+    for i in range(L - 1):
+        if bonds[i]:
+            M = M + J[i] * site(Z, i) @ site(Z, i + 1)
+    got = refs.dense_operator(op.A)
+    ctx.close('automaton-model.dense==formula', float(np.abs(got - M).max()), 1e-12 * max(1.0, float(np.abs(M).max())), 'site-dependent Ising MPO differs from the formula', detail)
+    ranks = [1] + [refs.operator_schmidt_rank(M, 2, L, c) for c in range(1, L)] + [1]
+    ctx.ok('automaton-model.bond-dims==schmidt-ranks', list(op.bond_dims) == ranks, f'bond dims {list(op.bond_dims)} vs operator Schmidt ranks {ranks} ({form})', detail)
+
+
 def chains_case(ctx, idx, rng):
     L = int(rng.integers(2, 9))
     kind = str(rng.choice(['few', 'many', 'shared-prefix', 'shared-suffix', 'with-zeros']))
@@ -170,6 +212,7 @@ SPEC = {
     'workloads': [
         Workload('models', model_case, quick=300, thorough=16200),
         Workload('round-parameters', round_params_case, quick=200, thorough=12000),
+        Workload('ising-site-dependent', ising_site_dependent_case, quick=240, thorough=12000),
         Workload('chains', chains_case, quick=1800, thorough=200000),
         Workload('simplify', random_graph_case, quick=900, thorough=100000),
     ],
